@@ -281,7 +281,10 @@ fn prefix_tok(s: &str) -> Option<String> {
     })
 }
 
-fn entry_tok(o: &serde_json::Map<String, Value>) -> Option<String> {
+/// `minimal`: the json-min form (no `custom`, unset fields absent) is required; otherwise the full form (all 11 keys)
+fn entry_tok(o: &serde_json::Map<String, Value>, minimal: bool) -> Option<String> {
+    if minimal && (o.contains_key("custom") || o.values().any(|v| v.is_null())) { return None; }
+    if !minimal && o.len() != 11 { return None; }
     const KEYS: [&str; 11] = ["timestamp", "origin_as", "peer_as", "as_path_hops", "conventional_reach", "conventional_unreach",
         "mp_reach", "mp_reach_afisafi", "mp_unreach", "mp_unreach_afisafi", "custom"];
     if o.keys().any(|k| !KEYS.contains(&k.as_str())) { return None; }
@@ -296,7 +299,9 @@ fn entry_tok(o: &serde_json::Map<String, Value>) -> Option<String> {
 }
 
 /// a JSON value -> canonical record token (None if it has none of the record shapes)
-pub fn record_tok(v: &Value) -> Option<String> {
+pub fn record_tok(v: &Value) -> Option<String> { record_tok_fmt(v, false) }
+
+pub fn record_tok_fmt(v: &Value, minimal: bool) -> Option<String> {
     match v {
         Value::Null => Some("R-".into()),
         Value::Array(a) if a.len() == 2 => Some(format!("D{},{}", ip_index(a[0].as_str()?)?, num(&a[1])?)),
@@ -306,7 +311,7 @@ pub fn record_tok(v: &Value) -> Option<String> {
             } else if o.len() == 2 && o.contains_key("id") && o.contains_key("value") {
                 Some(format!("U{},{}", num(&o["id"])?, num(&o["value"])?))
             } else if o.contains_key("timestamp") {
-                entry_tok(o)
+                entry_tok(o, minimal)
             } else { None }
         }
         _ => None,
@@ -376,7 +381,7 @@ fn csv_attrs(f: &[&str]) -> Option<String> {
 }
 
 pub fn line_tok(fmt: &str, line: &str) -> String {
-    let rec = if fmt == "csv" { csv_tok(line) } else { serde_json::from_str::<Value>(line).ok().and_then(|v| record_tok(&v)) };
+    let rec = if fmt == "csv" { csv_tok(line) } else { serde_json::from_str::<Value>(line).ok().and_then(|v| record_tok_fmt(&v, fmt == "json-min")) };
     rec.unwrap_or_else(|| format!("T{}", text_tok(line)))
 }
 
